@@ -40,9 +40,9 @@ LEAN = {"module": "Pygom.Props.C02", "extra_modules": ["Pygom.Lemmas.Integrate"]
                      "Pygom.C02.integrate2_rows", "Pygom.C02.solve_determ_rows", "Pygom.C02.method_dispatch",
                      "Pygom.C02.session_is_pure", "Pygom.C02.earlier_results_kept", "Pygom.C02.solve_reads_current",
                      "Pygom.C02.solve2_reads_current", "Pygom.C02.stale_grid_counterexample"]}
-BUDGET = {"quick": {"fake": 240, "fake_sessions": 120, "models": 40, "catalogue": 9, "radau_every": 2, "cython": 1,
+BUDGET = {"quick": {"fake": 240, "fake_sessions": 120, "models": 114, "catalogue": 20, "radau_every": 2, "cython": 1,
                     "history": 48, "siblings": 30, "forms": 24, "entries_per_session": 5},
-          "thorough": {"fake": 4000, "fake_sessions": 2000, "models": 1500, "catalogue": 36, "radau_every": 4, "cython": 8,
+          "thorough": {"fake": 4000, "fake_sessions": 2000, "models": 2280, "catalogue": 60, "radau_every": 4, "cython": 8,
                        "history": 240, "siblings": 160, "forms": 100, "entries_per_session": 5}}
 RULE = ("fake-integrator cases: random entry point (integrateFuncJac, integrate2, _integrate2, integrate, solve_determ), "
         "1-4 states, dyadic x0/c/t0, grid kind (uniform, non-uniform incl. repeated/unsorted times, one point, scalar, empty, "
@@ -61,7 +61,7 @@ RULE = ("fake-integrator cases: random entry point (integrateFuncJac, integrate2
         "non-trivial when at least two solves returned rows and everything agrees. "
         "Sessions (direct oracle only; every solve judged against the reference for its own inputs, returned arrays kept and "
         "compared after every later call with the copy taken on return, every list/array/dict handed in compared with the copy "
-        "taken before, repeated solves with equal values compared bit for bit): the 40 entry-point configurations (integrate x2, "
+        "taken before (a write into it is a side effect: tagged, a mismatch with the pure model, not a violation), repeated solves with equal values compared bit for bit): the 40 entry-point configurations (integrate x2, "
         "solve_determ x2, integrate2 x12, integrateFuncJac x24) are dealt round-robin, 5 per session. HISTORY (one instance, random "
         "model or pygom.common_models object): solve on (A, G0); then per dimension, in random order, change one of {t0, x0, "
         "parameters (redrawn or the same values bound to other names), t0 and x0, grid: same length other values / same length and "
@@ -162,6 +162,8 @@ def gen_fake(rng):
     x0 = [dyadic(rng, -4, 4) for _ in range(n)]
     c = [dyadic(rng, -3, 3) for _ in range(n)]
     t0 = dyadic(rng, -2, 2, 4)
+    if rng.random() < 0.25:     # far from the origin, both signs (the bookkeeping must not look at the size of t)
+        t0 += rng.choice([738000, -738000, 10000, -10000, 2 ** 20, -(2 ** 24)])
     kinds = [("uniform", 4), ("nonuniform", 5), ("one", 2), ("scalar", 2), ("empty", 1), ("other", 1)]
     if entry == "_integrate2":
         kinds = [("uniform", 4), ("nonuniform", 5), ("one", 2)]
@@ -170,7 +172,7 @@ def gen_fake(rng):
     gk = gen.wchoice(rng, kinds)
     container = rng.choice(["list", "tuple", "ndarray"])
     if gk == "uniform":
-        h = Fraction(rng.randint(1, 8), 8)
+        h = Fraction(rng.randint(1, 8), rng.choice([8, 8, 8, 64, 1024]))
         k = rng.randint(2, 9)
         start = t0 + (h if rng.random() < 0.8 else 0)
         t = {"list": [fr(start + i * h) for i in range(k)]}
@@ -214,12 +216,171 @@ def gen_fake(rng):
             "includeOrigin": rng.random() < 0.5, "aliased": aliased, "eigA": coef(), "eigB": coef()}
 
 
-def gen_runtime_model(rng, idx, radau):
-    spec, meta = gen.gen_model(rng, max_states=4, max_params=4, min_events=1, max_events=4, allow_time=False,
-                               allow_range=rng.random() < 0.3, limits=False)
+T0_NEAR = ["0", "0", "1/2", "-1", "3"]
+# far from the origin, both signs: calendar-style ordinal days, 1e4 .. 1e8 (at 1e8 one ulp is 1.5e-8)
+T0_FAR = ["738000", "-738000", "10000", "-10000", "1000000", "-246913/2", "10000000", "-100000000", "1476001/2"]
+HSCALE_TINY = ["1/1024", "1/1048576", "1/1073741824"]
+GRID_MODS = [("none", 10), ("repeat", 3), ("tiny", 2), ("ulp", 1), ("at-t0", 1), ("ulp-from-t0", 1), ("one", 2)]
+MODEL_FAMILIES = [("general", 10), ("general-time", 3), ("tiny-model", 2), ("chain", 3), ("inflow", 4), ("const-ode", 4), ("timecoef", 4),
+                  ("mixed", 4), ("symmetric", 2), ("zero-jacobian", 2)]
+AFFINE = ("chain", "inflow", "const-ode", "timecoef", "mixed", "symmetric", "zero-jacobian")
+
+
+def gen_scenario(rng, far_ok=True, long_ok=False):
+    """where on the time axis and on what kind of grid: (t0, horizon scale, grid modifications)"""
+    far = far_ok and rng.random() < 0.4
+    t0 = rng.choice(T0_FAR if far else T0_NEAR)
+    r = rng.random()
+    if r < 0.72:
+        hs = "1"
+    elif r < 0.9:
+        hs = rng.choice(HSCALE_TINY[:1] if far else HSCALE_TINY)      # far away 2^-30 of a horizon is below one ulp
+    else:
+        hs = "8" if long_ok else "1"
+    mods = []
+    k = gen.wchoice(rng, GRID_MODS)
+    if k == "repeat":
+        mods = [{"op": "repeat", "i": rng.randrange(8), "n": rng.choice([1, 1, 2])} for _ in range(rng.randint(1, 2))]
+    elif k == "tiny":
+        mods = [{"op": "tiny", "i": rng.randrange(8), "ulps": rng.choice([4, 64, 2 ** 20])} for _ in range(rng.randint(1, 2))]
+    elif k == "ulp":
+        mods = [{"op": "ulp", "i": rng.randrange(8)}]
+    elif k != "none":
+        mods = [{"op": k, "i": rng.randrange(8)}]
+    return t0, hs, mods
+
+
+def _ulp_after(v):
+    """the next float after v; next to zero (where that would be a subnormal number no integrator can step to) 2^-60"""
+    v = float(v)
+    return float(np.nextafter(v, np.inf)) if abs(v) >= 1e-300 else 2.0 ** -60
+
+
+def apply_gridmods(t0, grid, mods):
+    """the float grid actually requested (deterministic in the case): repeated times, neighbours a few ulps apart,
+    a first time equal to / one ulp after t0, a one-point grid"""
+    g = [float(v) for v in grid]
+    for m in mods:
+        i = m.get("i", 0) % len(g)
+        if m["op"] == "repeat":
+            g = g[:i + 1] + [g[i]] * m.get("n", 1) + g[i + 1:]
+        elif m["op"] == "ulp":
+            g = g[:i + 1] + [_ulp_after(g[i])] + [v for v in g[i + 1:] if v > _ulp_after(g[i])]
+        elif m["op"] == "tiny":
+            v = g[i] + m["ulps"] * float(np.spacing(abs(g[i]) if g[i] else 1.0))
+            if i + 1 >= len(g) or v < g[i + 1]:
+                g = g[:i + 1] + [v] + g[i + 1:]
+        elif m["op"] == "at-t0":
+            g = [float(t0)] + g
+        elif m["op"] == "ulp-from-t0":
+            g = [_ulp_after(t0)] + [v for v in g if v > _ulp_after(t0)]
+        elif m["op"] == "one":
+            g = [g[i]]
+    return g
+
+
+def degenerate_steps(t0, grid):
+    """steps of the requested grid (t0 -> first time included) that are zero or at most 4 ulps long: scipy's `ode` integrators
+    report failure for (some of) them and pygom raises IntegrationError"""
+    out, prev = [], float(t0)
+    for j, t in enumerate(grid):
+        if abs(t - prev) <= 4 * float(np.spacing(max(abs(t), abs(prev)))):
+            out.append(j)
+        prev = t
+    return out
+
+
+def _proc(rate, kind, trs):
+    return {"rate": rate, "kind": kind, "transitions": trs}
+
+
+def gen_affine_spec(rng, family):
+    """models whose right-hand side is at most first order in the states (so that `linear_ode()` is True): pure linear chains,
+    constant inflow / birth, constant explicit ODE terms, time-dependent coefficients multiplying states, mixtures, a symmetric
+    Jacobian, an all-zero Jacobian - built as an abstract process set and routed through the API like every generated model"""
+    nS = rng.randint(2 if family == "symmetric" else 1, 4)
+    states = rng.sample(gen.STATE_POOL, nS)
+    params = rng.sample(gen.PARAM_POOL, rng.randint(1, 4))
+    a = lambda: V(rng.choice(params))
+    mag = lambda: N_(rng.randint(1, 2))
+    wave = lambda: E.add(N_(1), E.mul(E.num(1, 2), E.fn(rng.choice(["cos", "sin"]), E.mul(rng.choice([N_(1), N_(3), E.mul(N_(2), E.PI)]), V("t")))))
+    procs, odes = [], []
+
+    def linear(timedep=False):
+        if nS >= 2 and rng.random() < 0.6:
+            o, d = rng.sample(states, 2)
+            trs = [{"type": "T", "origin": o, "dest": d, "mag": mag()}]
+        else:
+            o = rng.choice(states)
+            trs = [{"type": "D", "origin": o, "dest": None, "mag": mag()}]
+        rate = E.mul(E.mul(a(), wave()), V(o)) if timedep else E.mul(a(), V(o))
+        procs.append(_proc(rate, "periodic" if timedep else "linear", trs))
+
+    def inflow(timedep=False):
+        rate = E.mul(a(), wave()) if timedep else a()
+        procs.append(_proc(rate, "const", [{"type": "B", "origin": None, "dest": rng.choice(states), "mag": mag()}]))
+
+    def const_ode():
+        c = rng.choice([a(), E.num(rng.randint(1, 3), 2), E.mul(a(), E.num(1, 2))])
+        odes.append({"state": rng.choice(states), "expr": E.neg(c) if rng.random() < 0.3 else c})
+
+    if family == "symmetric":
+        o, d = rng.sample(states, 2)
+        c = a()
+        if rng.random() < 0.5:      # exchange at equal rates: J = [[-c, c], [c, -c]]
+            procs.append(_proc(E.mul(c, V(o)), "linear", [{"type": "T", "origin": o, "dest": d, "mag": N_(1)}]))
+            procs.append(_proc(E.mul(c, V(d)), "linear", [{"type": "T", "origin": d, "dest": o, "mag": N_(1)}]))
+        else:                       # x' = c y, y' = c x
+            odes.append({"state": o, "expr": E.mul(c, V(d))})
+            odes.append({"state": d, "expr": E.mul(c, V(o))})
+        if rng.random() < 0.5:
+            rng.choice([inflow, const_ode])()
+    elif family == "zero-jacobian":
+        for _ in range(rng.randint(1, 3)):
+            rng.choice([inflow, const_ode, lambda: inflow(True)])()
+    else:
+        for _ in range(rng.randint(1, 3)):
+            linear(family == "timecoef" and rng.random() < 0.7)
+        if family == "timecoef" and not any(p["kind"] == "periodic" for p in procs):
+            linear(True)
+        if family in ("inflow", "mixed"):
+            inflow(family == "mixed" and rng.random() < 0.3)
+        if family in ("const-ode", "mixed"):
+            const_ode()
+        if family == "mixed":
+            linear(rng.random() < 0.5)
+    abstract = {"decl_states": states, "states": states, "params": params, "derived": [], "procs": procs, "odes": odes, "lims": None}
+    how = rng.choice(["any", "any", "ode-only", "events-only"])
+    if how == "ode-only":           # a model with explicit ODE terms only
+        spec, meta = gen.make_spec(rng, abstract, as_ode_prob=1.0)
+    elif how == "events-only" and not odes:
+        spec, meta = gen.make_spec(rng, abstract, routes=("event", "event_eq", "event_bare", "incremental"))
+    else:
+        how = "any"
+        spec, meta = gen.make_spec(rng, abstract)
+    meta["how"] = how
+    return spec, meta
+
+
+def gen_runtime_model(rng, idx, radau, family=None):
+    family = family or gen.wchoice(rng, MODEL_FAMILIES)
+    if family in AFFINE:
+        spec, meta = gen_affine_spec(rng, family)
+    elif family == "tiny-model":        # one state, one parameter
+        spec, meta = gen.gen_model(rng, max_states=1, max_params=1, min_events=1, max_events=2, allow_time=rng.random() < 0.3,
+                                   allow_range=False, limits=False, allow_derived=False)
+    else:
+        spec, meta = gen.gen_model(rng, max_states=4, max_params=4, min_events=1, max_events=4, allow_time=family == "general-time",
+                                   allow_range=rng.random() < 0.3, limits=False)
     params = {p: fr(Fraction(rng.randint(2, 16), 16)) for p in meta["params"]}
     x0 = [fr(Fraction(rng.randint(2, 16), 8)) for _ in meta["states"]]
-    t0 = fr(rng.choice([0, 0, Fraction(1, 2), -1, 3]))
+    # boundary values: parameters that are exactly zero, initial states that are exactly zero (some or all)
+    if rng.random() < 0.12:
+        for p in rng.sample(sorted(params), rng.randint(1, len(params))):
+            params[p] = "0"
+    if rng.random() < 0.12:
+        for i in (range(len(x0)) if rng.random() < 0.4 else rng.sample(range(len(x0)), rng.randint(1, len(x0)))):
+            x0[i] = "0"
     k = rng.randint(2, 8)
     if rng.random() < 0.5:
         fracs = [Fraction(i + 1, k) for i in range(k)]
@@ -228,8 +389,9 @@ def gen_runtime_model(rng, idx, radau):
         cuts = sorted(set(rng.randint(1, 64) for _ in range(k)))
         fracs = [Fraction(v, 64) for v in cuts]
         gk = "nonuniform"
-    return {"kind": "model", "spec": spec, "kinds": sorted(set(meta["kinds"])), "nS": len(meta["states"]),
-            "params": params, "x0": x0, "t0": t0, "Tmax": rng.choice([1, 2, 3]), "fracs": [fr(f) for f in fracs],
+    t0, hs, mods = gen_scenario(rng, long_ok=family in ("chain", "inflow", "const-ode"))
+    return {"kind": "model", "family": family, "spec": spec, "kinds": sorted(set(meta["kinds"])), "nS": len(meta["states"]),
+            "params": params, "x0": x0, "t0": t0, "Tmax": rng.choice([1, 2, 3]), "fracs": [fr(f) for f in fracs], "hscale": hs, "gridmods": mods,
             "grid_kind": gk, "container": rng.choice(["list", "ndarray"]), "radau": bool(radau)}
 
 
@@ -289,6 +451,12 @@ def catalogue():
     cat.append(dict(name="Lorenz", spec=_ode_spec(["x", "y", "z"], ["beta", "sigma", "rho"],
                                                    [_m(sigma, E.sub(y, x)), E.sub(_m(x, E.sub(rho, z)), y), E.sub(_m(x, y), _m(beta, z))]),
                     params={"beta": "8/3", "sigma": "10", "rho": "28"}, x0=["1", "1", "1"], T=1))
+    # time-dependent member: beta(t) = beta0 (1 - delta cos(2 * 3.14159 t / period)) as written in the source (3.14159, not pi)
+    bT = _m(V("beta0"), E.sub(N_(1), _m(V("delta"), E.fn("cos", E.div(_m(N_(2), E.num(314159, 100000), V("t")), V("period"))))))
+    infT = E.div(_m(bT, S, I), Nn)
+    cat.append(dict(name="SIS_Periodic", spec=_ode_spec(["S", "I"], ["gamma", "beta0", "delta", "period", "N"],
+                                                         [E.add(E.neg(infT), _m(gamma, I)), E.sub(infT, _m(gamma, I))]),
+                    params={"gamma": "1/4", "beta0": "1", "delta": "1/2", "period": "2", "N": "1"}, x0=["9/10", "1/10"], T=10, time=True))
     # stiff member of the catalogue (hard-coded constants, no parameters): the Jacobian orientation handed to
     # LSODA only matters in its stiff mode, so this is where a transposed / mis-ordered Jacobian shows
     y1, y2, y3 = V("y1"), V("y2"), V("y3")
@@ -305,19 +473,20 @@ def gen_catalogue(rng, i, radau):
     cat = catalogue()
     ent = cat[i % len(cat)]
     k = rng.randint(3, 10)
-    T = Fraction(ent["T"])
     if rng.random() < 0.5:
-        grid = [T * Fraction(j + 1, k) for j in range(k)]
+        fracs = [Fraction(j + 1, k) for j in range(k)]
         gk = "uniform"
     else:
         cuts = sorted(set(rng.randint(1, 64) for _ in range(k)))
-        grid = [T * Fraction(v, 64) for v in cuts]
+        fracs = [Fraction(v, 64) for v in cuts]
         gk = "nonuniform"
-    t0 = Fraction(rng.choice([0, 0, 1, -2]))
+    t0, hs, mods = gen_scenario(rng, long_ok=ent["name"] in ("SIS", "SIR", "SEIR", "SIR_norm"))
     if ent.get("stiff"):
-        t0 = Fraction(0)
-    return {"kind": "catalogue", "name": ent["name"], "params": ent["params"], "x0": ent["x0"], "t0": fr(t0), "stiff": bool(ent.get("stiff")),
-            "grid": [fr(t0 + g) for g in grid], "grid_kind": gk, "container": rng.choice(["list", "ndarray"]), "radau": bool(radau)}
+        t0, hs = "0", "1"
+        mods = [m for m in mods if m["op"] in ("repeat", "one")]
+    return {"kind": "catalogue", "name": ent["name"], "params": ent["params"], "x0": ent["x0"], "t0": t0, "stiff": bool(ent.get("stiff")),
+            "fracs": [fr(f) for f in fracs], "hscale": hs, "gridmods": mods, "grid_kind": gk, "container": rng.choice(["list", "ndarray"]),
+            "radau": bool(radau)}
 
 
 def make_cases(rng, tier, budget):
@@ -330,8 +499,10 @@ def make_cases(rng, tier, budget):
     off = rng.randrange(ncat)
     for i in range(budget["catalogue"]):
         cases.append(gen_catalogue(random.Random(rng.getrandbits(64)), off + i, i % budget["radau_every"] == 0))
+    deck = [f for f, w in MODEL_FAMILIES for _ in range(w)]     # every family gets its share on every run
+    rng.shuffle(deck)
     for i in range(budget["models"]):
-        cases.append(gen_runtime_model(random.Random(rng.getrandbits(64)), i, i % budget["radau_every"] == 0))
+        cases.append(gen_runtime_model(random.Random(rng.getrandbits(64)), i, i % budget["radau_every"] == 0, family=deck[i % len(deck)]))
         if i < budget.get("cython", 0):
             cases[-1]["backend"] = "cython"      # pygom's default compile back-end (seconds of gcc per evaluator)
     cases += session_cases(rng, budget)
@@ -738,8 +909,8 @@ def fd_jac(f, t, x):
     return J
 
 
-def reference(f, x0, t0, grid, radau):
-    """returns (ref rows at grid, info) or (None, reason)"""
+def reference(f, x0, t0, grid, radau, direct_grid=None):
+    """returns (ref rows at grid, info) or (None, reason); grid strictly ascending, after t0"""
     from scipy.integrate import solve_ivp
     import warnings
     with warnings.catch_warnings():
@@ -765,7 +936,12 @@ def reference(f, x0, t0, grid, radau):
             return None, "conditioning-undefined:%s" % type(exc).__name__
         amp = math.exp(min(700.0, float(np.trapezoid(mus, tt))))
         info = {"amp": amp, "stiff": float(np.trapezoid(nrm, tt))}
-        info["direct"] = direct_solver_error(f, x0, t0, grid, ref)
+        if direct_grid is None:
+            info["direct"] = direct_solver_error(f, x0, t0, grid, ref)
+        elif direct_grid:
+            info["direct"] = direct_solver_error(f, x0, t0, direct_grid, np.array([ref[grid.index(t)] for t in direct_grid]))
+        else:
+            info["direct"] = {"default": 0.0, "1e-10": 0.0}
         if radau:
             try:
                 s2 = solve_ivp(f, (t0, grid[-1]), x0, method="Radau", rtol=1e-10, atol=1e-12, t_eval=grid)
@@ -778,6 +954,32 @@ def reference(f, x0, t0, grid, radau):
             if d > 1e-8:
                 return None, "references-disagree"
     return ref, info
+
+
+def reference_any(f, x0, t0, grid, radau, stiff=False):
+    """reference rows for ANY ascending grid: repeated times get the same row, a time equal to t0 gets x0; the integration itself
+    runs on the distinct times after t0.  scipy's own odeint (`direct`) is asked for the distinct times that are more than 4 ulps
+    after t0: lsoda refuses a first output closer than that ("tout too close to t to start integration") and odeint then returns
+    uninitialised rows - `first_step_degenerate` says so and the odeint-based entry points are not judged on such a grid"""
+    t0 = float(t0)
+    x0 = np.asarray(x0, dtype=float)
+    uniq = sorted(set(float(t) for t in grid if float(t) != t0))
+    close = [t for t in uniq if abs(t - t0) <= 4 * float(np.spacing(max(abs(t), abs(t0))))]
+    if not uniq:
+        return np.array([x0 for _ in grid]), {"amp": 1.0, "stiff": 0.0, "direct": {"default": 0.0, "1e-10": 0.0}, "first_step_degenerate": False}
+    if uniq[0] < t0:
+        raise ValueError("generator: a requested time precedes the initial time")
+    far = [t for t in uniq if t not in close]
+    if stiff:
+        ref, info = reference_stiff(f, x0, t0, uniq)
+    else:
+        ref, info = reference(f, x0, t0, uniq, radau, direct_grid=far if close else None)
+    if ref is None:
+        return None, info
+    rows = dict(zip(uniq, ref))
+    rows[t0] = x0
+    info["first_step_degenerate"] = bool(close)
+    return np.array([rows[float(t)] for t in grid]), info
 
 
 def reference_stiff(f, x0, t0, grid):
@@ -864,7 +1066,7 @@ def judge(sig, sol, ref, x0, grid, origin, viol, margins, key, acc=TOL):
         what = "accuracy"
         if len(grid) >= 2 and np.all(np.abs(a - ref[-1]) <= acc * (1.0 + np.abs(ref[-1]))) and np.max(np.abs(ref[0] - ref[-1])) > 1e-4:
             what = "rows-equal-final-state"
-        elif len(grid) >= 2 and any(np.all(np.abs(a[i] - ref[j]) <= acc * (1.0 + np.abs(ref[j]))) for j in range(len(grid)) if j != i):
+        elif len(grid) >= 2 and any(np.all(np.abs(a[i] - ref[j]) <= acc * (1.0 + np.abs(ref[j]))) for j in range(len(grid)) if grid[j] != grid[i]):
             what = "row-order"
         viol.append({"what": "%s: row for t=%r is %s, the ODE solution there is %s (%s)" % (sig, grid[i], [float(v) for v in a[i]], [float(v) for v in ref[i]], what),
                      "signature": sig + ":" + what,
@@ -902,8 +1104,11 @@ def run_runtime(case):
     f, src = rhs_from_lean(lr, case["params"])
     x0 = np.array([float(Fraction(v)) for v in case["x0"]])
     t0 = float(Fraction(case["t0"]))
-    if case["kind"] == "catalogue":
-        grid = [float(Fraction(v)) for v in case["grid"]]
+    hs = float(Fraction(case.get("hscale", "1")))
+    if case["kind"] == "catalogue" and "grid" in case:
+        grid = [float(Fraction(v)) for v in case["grid"]]          # explicit grid (older corpus cases)
+    elif case["kind"] == "catalogue":
+        grid = [t0 + hs * float(ent["T"]) * float(Fraction(v)) for v in case["fracs"]]
     else:
         try:
             L = float(np.linalg.norm(fd_jac(f, t0, x0), 2))
@@ -913,11 +1118,36 @@ def run_runtime(case):
             return {"nontrivial": False, "mismatches": mism, "violations": viol, "tags": tags + ["rejected:rhs-undefined-at-x0"]}
         T = min(float(case["Tmax"]), 2.0 / L) if L > 0 else float(case["Tmax"])
         T = float(Fraction(T).limit_denominator(1024)) or 1.0 / 1024
-        grid = [t0 + T * float(Fraction(v)) for v in case["fracs"]]
+        grid = [t0 + hs * T * float(Fraction(v)) for v in case["fracs"]]
+    grid = apply_gridmods(t0, grid, case.get("gridmods", []))
+    if any(b < a for a, b in zip([t0] + grid, grid)):
+        raise ValueError("generator: the grid is not ascending")
+    if degenerate_steps(t0, grid):
+        tags.append("grid-has-zero-or-few-ulp-step")
     tags.append("grid=%s" % case["grid_kind"])
+    tags.append("family=%s" % case.get("family", case["kind"]))
+    tags.append("t0=%s" % ("far:%s" % ("+" if t0 > 0 else "-") if abs(t0) >= 1e4 else "near"))
+    tags.append("horizon=%s" % ("tiny" if hs < 1 else "long" if hs > 1 else "normal"))
+    for m_ in case.get("gridmods", []):
+        tags.append("gridmod=%s" % m_["op"])
+    if len(grid) >= 2 and abs(t0) >= 1e4:
+        gaps = [b - a for a, b in zip([t0] + grid, grid) if b > a]
+        if gaps and min(gaps) <= 1e-5 * abs(t0):
+            tags.append("spacing-below-1e-5-of-|t|")
+    for p_, v_ in case["params"].items():
+        if Fraction(v_) == 0:
+            tags.append("boundary:zero-parameter")
+            break
+    if any(Fraction(v) == 0 for v in case["x0"]):
+        tags.append("boundary:zero-initial-state" + ("-all" if all(Fraction(v) == 0 for v in case["x0"]) else ""))
     tags.append("backend:%s" % case.get("backend", "lambda"))
     stiff = bool(case.get("stiff"))
-    ref, info = reference_stiff(f, x0, t0, grid) if stiff else reference(f, x0, t0, grid, case.get("radau"))
+    try:
+        if model.linear_ode():
+            tags.append("linear_ode()=True")
+    except Exception:
+        pass
+    ref, info = reference_any(f, x0, t0, grid, case.get("radau"), stiff=stiff)
     if ref is None:
         return {"nontrivial": False, "mismatches": mism, "violations": viol, "tags": tags + ["rejected:%s" % info]}
     if case["kind"] == "model" and info["amp"] > AMP_MAX:
@@ -945,11 +1175,15 @@ def run_runtime(case):
             finally:
                 rec.remove()
         except Exception as exc:
+            if degenerate_steps(t0, g) and type(exc).__name__ in ZERO_STEP_ERRORS and "method=odeint" not in sig:
+                # unchanged pygom / scipy: an `ode` integrator asked for a step of (nearly) zero length reports failure
+                tags.append("zero-length-step:%s:%s:not-judged" % (sig.split(":full_output")[0], type(exc).__name__))
+                return
             viol.append({"what": "%s raised %s: %s" % (sig, type(exc).__name__, str(exc)[:200]),
                          "signature": sig + ":raised:" + type(exc).__name__, "detail": ""})
             return
         sol = res[0] if has_output else res
-        r = ref if len(g) == len(grid) else ref[-1:]
+        r = ref if g is grid else ref[-1:]
         judge(sig, sol, r, x0, g, origin, viol, margins, sig.split(":")[0], acc_odeint if "method=odeint" in sig else TOL)
         if want_first is not None and (not rec.calls or rec.calls[0] != want_first):
             viol.append({"what": "%s set up scipy integrator %s, the documented integrator for this method is %s" % (
@@ -959,7 +1193,9 @@ def run_runtime(case):
         model.initial_values = (x0.copy(), t0)
 
     # model.integrate / solve_determ (odeint)
-    for fo in (False, True):
+    if info.get("first_step_degenerate"):
+        tags.append("odeint-entries-not-judged:first-output-within-4-ulps-of-t0")
+    for fo in (() if info.get("first_step_degenerate") else (False, True)):
         fresh()
         call("integrate:method=odeint:full_output=%s" % fo, lambda: model.integrate(tg, full_output=fo), True, grid, has_output=fo)
         fresh()
@@ -976,8 +1212,9 @@ def run_runtime(case):
                      want_first=DOC_INTEGRATOR.get(m), has_output=fo)
     # scalar time
     tl = grid[-1]
-    fresh()
-    call("integrate:method=odeint:full_output=False", lambda: model.integrate(tl), True, [tl])
+    if tl == t0 or abs(tl - t0) > 4 * float(np.spacing(max(abs(tl), abs(t0)))):
+        fresh()
+        call("integrate:method=odeint:full_output=False", lambda: model.integrate(tl), True, [tl])
     fresh()
     call("integrate2:method=None:full_output=False", lambda: model.integrate2(tl), True, [tl])
     call("integrateFuncJac:method=None:full_output=False",
@@ -1015,7 +1252,8 @@ def run_runtime(case):
 #              numpy scalars/mixed/scalar, x0 list/tuple/float or int ndarray/int list, t0 float/int/np.float64/
 #              np.int64, parameters dict/partial dict/tuples/ordered list/ordered ndarray), a grid starting at t0.
 # Returned arrays are KEPT and compared, after all later solves, with a copy taken when they were returned;
-# every object handed to pygom is compared with a copy taken before.  Repeated solves with equal values must
+# every object handed to pygom is compared with a copy taken before (a write into it is a side effect - tagged and reported as a
+# mismatch with the pure model; the violation, if any, is the wrong rows some judged call then returns).  Repeated solves with equal values must
 # agree bit for bit (a disagreement is a mismatch with the pure model; off the reference it is a violation).
 # ------------------------------------------------------------------------------------------------
 ENTRY_CONFIGS = ([("integrate", None, fo, True) for fo in (False, True)] +
@@ -1032,6 +1270,9 @@ PFORMS = ["dict", "partial", "tuples", "ordered-list", "ordered-ndarray"]
 # unchanged pygom/scipy: an `ode` integrator asked to advance by zero (first requested time == t0) reports
 # failure for lsoda (single-integrator path) / dopri5 / dop853 and pygom raises IntegrationError: tagged, not judged
 ZERO_STEP_ERRORS = ("IntegrationError",)
+# assignments the unchanged pygom refuses (the refusal is tagged; what is judged is the next solve, after proper values were given)
+BAD_ASSIGN = ["x0-short", "x0-long", "x0-string", "t0-string", "t0-list", "params-unknown-name", "params-unknown-only", "params-short-array",
+              "params-long-array"]
 
 
 def entry_sig(e):
@@ -1086,8 +1327,12 @@ def _session_model(rng, cat_prob, min_params=1, int_values=False, names_only=Non
                 "configs": {"A": {"params": dict(ent["params"]), "x0": dict(zip(states, ent["x0"])), "t0": "0"}}}
         return inst
     while True:
-        spec, meta = gen.gen_model(rng, max_states=4, max_params=4, min_events=1, max_events=4, allow_time=False,
-                                   allow_range=rng.random() < 0.3, limits=False)
+        if rng.random() < 0.25:
+            # at most first order in the states (linear_ode() is True): chains, constant inflow / ODE terms, time-dependent coefficients
+            spec, meta = gen_affine_spec(rng, rng.choice(AFFINE))
+        else:
+            spec, meta = gen.gen_model(rng, max_states=4, max_params=4, min_events=1, max_events=4, allow_time=rng.random() < 0.2,
+                                       allow_range=rng.random() < 0.3, limits=False)
         if len(meta["params"]) >= min_params:
             break
     if int_values:
@@ -1098,6 +1343,13 @@ def _session_model(rng, cat_prob, min_params=1, int_values=False, names_only=Non
         x0 = _gen_values(rng, meta["states"], 2, 16, 8)
     return {"source": "spec", "spec": spec, "decl_states": list(meta["abstract"]["decl_states"]), "decl_params": list(meta["params"]),
             "kinds": sorted(set(meta["kinds"])), "amp_check": True, "configs": {"A": {"params": params, "x0": x0, "t0": "0"}}}
+
+
+def _tbase(rng, integer=False):
+    """where the session sits on the time axis: near the origin or far from it (both signs)"""
+    if rng.random() < 0.3:
+        return rng.choice([738000, -738000, 10000, -10000, 10 ** 6, -(10 ** 7)] + ([] if integer else [Fraction(-246913, 2)]))
+    return rng.choice([0, 0, 1, -1, 3] if integer else [0, 0, Fraction(1, 2), -1, 3])
 
 
 def _base_grid(rng):
@@ -1142,6 +1394,11 @@ def gen_session_history(rng, entries, radau):
         keep = keep[1:] if len(keep) > 1 and rng.random() < 0.5 else keep[:-1] or keep
     grids["G3"] = keep                                                           # subset
     grids["Gs"] = [g0[-1]]                                                       # the last time, passed as a scalar
+    g5 = list(g0)
+    for _ in range(rng.randint(1, 2)):                                           # replicate times (a time asked twice or three times)
+        j = rng.randrange(len(g5))
+        g5 = g5[:j + 1] + [g5[j]] * rng.choice([1, 1, 2]) + g5[j + 1:]
+    grids["G5"] = g5
     minfrac = min(min(v) for v in grids.values())
     tB = rng.choice([Fraction(-1, 3), Fraction(-1, 4), Fraction(-1, 8), minfrac / 2])
     if cat:
@@ -1158,7 +1415,7 @@ def gen_session_history(rng, entries, radau):
     ops = []
     for e in entries:
         b = lambda **kw: _solve_op(0, "A", "G0", e, base, **kw)
-        dims = [dict(cfg="Bt0"), dict(cfg="Bx0"), dict(cfg="Bpar"), dict(cfg="Btx"), dict(grid="G1"), dict(grid="G2"),
+        dims = [dict(cfg="Bt0"), dict(cfg="Bx0"), dict(cfg="Bpar"), dict(cfg="Btx"), dict(grid="G1"), dict(grid="G2"), dict(grid="G5"),
                 dict(grid="G3"), dict(grid="Gs", gform=rng.choice(["scalar", "np.float64"])), dict(cfg="Bt0", grid="G1"),
                 dict(gform=_other(rng, GFORMS_FLOAT, base["gform"])), dict(fo=not e[2])]
         if "G4" in grids:
@@ -1176,6 +1433,10 @@ def gen_session_history(rng, entries, radau):
                 d["via"] = rng.choice(["attr", "values"])
                 d["pform"] = rng.choice(PFORMS)
             ops.append(b(**d))
+            if rng.random() < 0.12:
+                # an input the unchanged pygom REJECTS (wrong length, unknown name, not a number) is attempted in between; whatever it
+                # left behind, the instance is then given its proper values again and must solve for them
+                ops.append({"op": "bad-assign", "inst": 0, "what": rng.choice(BAD_ASSIGN)})
             if rng.random() < 0.85:
                 ops.append(b())         # restored
         ops.append(b())
@@ -1185,7 +1446,7 @@ def gen_session_history(rng, entries, radau):
     for e in entries:
         ops.append({"op": "randomise", "inst": 0, "grid": "G0", "solve": rng.random() < 0.5})
         ops.append(_solve_op(0, "A", "G0", e, base, pform=rng.choice([f for f in PFORMS if f != "partial"])))
-    return {"kind": "session", "flavour": "history", "instances": [inst], "tbase": fr(rng.choice([0, 0, Fraction(1, 2), -1, 3])),
+    return {"kind": "session", "flavour": "history", "instances": [inst], "tbase": fr(_tbase(rng)),
             "Tmax": rng.choice([1, 2, 3]), "grids": {k: [fr(f) for f in v] for k, v in grids.items()}, "ops": ops, "radau": bool(radau)}
 
 
@@ -1277,7 +1538,7 @@ def gen_session_siblings(rng, entries, radau):
             ops.append(_solve_op(0, "B", "G0", e, forms[0]))
             ops.append(_solve_op(0, "A", "G0", e, forms[0], pform=rng.choice(PFORMS)))
             ops.append(_solve_op(clone, "A", "G0", e, forms[clone]))
-    return {"kind": "session", "flavour": "siblings", "instances": insts, "tbase": fr(rng.choice([0, 0, Fraction(1, 2), -1, 3])),
+    return {"kind": "session", "flavour": "siblings", "instances": insts, "tbase": fr(_tbase(rng)),
             "Tmax": rng.choice([1, 2, 3]), "grids": {"G0": [fr(f) for f in g0]}, "ops": ops, "radau": bool(radau)}
 
 
@@ -1308,7 +1569,7 @@ def gen_session_forms(rng, entries, radau):
             d["via"] = rng.choice(["attr", "values"])
             ops.append(b(**d))
         ops.append(b())
-    return {"kind": "session", "flavour": "forms", "instances": [inst], "tbase": str(rng.choice([0, 0, 1, -1, 3])), "Tfixed": "1/2" if half else "1",
+    return {"kind": "session", "flavour": "forms", "instances": [inst], "tbase": str(_tbase(rng, integer=True)), "Tfixed": "1/2" if half else "1",
             "grids": grids, "ops": ops, "radau": bool(radau)}
 
 
@@ -1505,10 +1766,13 @@ def run_session(case):
         if not found["modified"]:
             for obj, snap, what in handed:
                 if not _same_as_snapshot(obj, snap):
+                    # a pure side effect: the property speaks about returned rows only (they are judged on every call), so a write
+                    # into the caller's object is tagged and reported as a mismatch with the pure Lean model, not as a violation
                     found["modified"] = True
-                    viol.append({"what": "the %s object handed to pygom was modified (seen after %s)" % (what, after),
-                                 "signature": "session:input-modified:%s" % what,
-                                 "detail": "before=%s now=%r" % (snap[2] if snap[0] != "nd" else snap[2].tolist(), obj)})
+                    tags.append("side-effect:input-modified:%s" % what)
+                    mism.append({"what": "side-effect:input-modified:%s" % what,
+                                 "detail": "the %s object handed to pygom was modified (seen after %s): before=%s now=%r" % (
+                                     what, after, snap[2] if snap[0] != "nd" else snap[2].tolist(), obj)})
                     break
 
     for op in case["ops"]:
@@ -1528,6 +1792,38 @@ def run_session(case):
             return done()
         L = live[i]
         model, cur = L["model"], L["cur"]
+        if op["op"] == "bad-assign":
+            w = op["what"]
+            nS_, pn = len(spec_info[root(i)]["states"]), sorted(str(p_) for p_ in model.param_list)
+            try:
+                if w == "x0-short":
+                    model.initial_state = [1.0] * (nS_ - 1)
+                elif w == "x0-long":
+                    model.initial_state = [1.0] * (nS_ + 1)
+                elif w == "x0-string":
+                    model.initial_state = "abc"
+                elif w == "t0-string":
+                    model.initial_time = "abc"
+                elif w == "t0-list":
+                    model.initial_time = [0.0, 1.0]
+                elif w == "params-unknown-name":
+                    model.parameters = dict([(k_, 0.5) for k_ in pn[:1]] + [("no_such_parameter", 0.25)])
+                elif w == "params-unknown-only":
+                    model.parameters = {"no_such_parameter": 0.25}
+                elif w == "params-short-array":
+                    model.parameters = np.full(max(0, len(pn) - 1), 0.5)
+                elif w == "params-long-array":
+                    model.parameters = np.full(len(pn) + 1, 0.5)
+                tags.append("session:rejected-input:%s:ACCEPTED" % w)
+            except Exception as exc:
+                tags.append("session:rejected-input:%s:raised:%s" % (w, type(exc).__name__))
+            # whatever the attempt left behind: everything it could have touched is assigned again before the next solve
+            if w.startswith("params"):
+                cur["params"] = None
+            else:
+                cur["x0"] = cur["t0"] = None
+            L["after_bad"] = True
+            continue
         if op["op"] == "randomise":
             import scipy.stats
             pd0 = cur["params"][0] if cur["params"] else {}
@@ -1563,9 +1859,11 @@ def run_session(case):
             hist = [k for k in ("t0", "x0", "params", "grid", "forms", "method", "full_output", "includeOrigin", "entry")
                     if now[k] != L["last"][k]] or ["same"]
             if "grid" in hist:
-                rel = {"G1": "values", "G2": "superset", "G3": "subset", "G4": "interior", "Gs": "scalar", "Gz": "starts-at-t0"}
+                rel = {"G1": "values", "G2": "superset", "G3": "subset", "G4": "interior", "Gs": "scalar", "Gz": "starts-at-t0", "G5": "repeated-times"}
                 other = now["gname"] if now["gname"] != "G0" else L["last"]["gname"]
                 hist[hist.index("grid")] = "grid-" + rel.get(other, "other")
+        if L.pop("after_bad", False):
+            hist.append("after-rejected-input")
         if L.get("after_random"):       # from then on part of this instance's history
             hist = ["after-random-parameters"]
         if prev_inst[0] is not None and prev_inst[0] != i:
@@ -1612,7 +1910,7 @@ def run_session(case):
                                                  full_output=op["fo"], method=op["method"])
                 sol = res[0] if op["fo"] else res
         except Exception as exc:
-            if op["grid"] == "Gz" and type(exc).__name__ in ZERO_STEP_ERRORS and op["entry"] in ("integrate2", "integrateFuncJac"):
+            if degenerate_steps(t0v, grid) and type(exc).__name__ in ZERO_STEP_ERRORS and op["entry"] in ("integrate2", "integrateFuncJac"):
                 tags.append("session:zero-length-first-step:%s:not-judged" % type(exc).__name__)
                 counts["tagged"] += 1
                 L["last"], prev_inst[0] = now, i
